@@ -658,58 +658,49 @@ def r5_4(run):
     ix = run.index
     nr, sites = _nr_sites(run)
     run.analysed(nr)
-    loops = [n for n in own_walk(nr.node) if isinstance(n, ast.While)]
-    run.ob("newton_raphson|single-while", len(loops) == 1, "newton_raphson has exactly one iteration loop",
-           run.where(nr, nr.node))
-    if len(loops) != 1:
+    # whole-function terms: the loop test as every pass evaluates it, the counter as a loop-carried value
+    from ..arrnf import ANF as _ANF, conjuncts as _conj, key as _tk, show as _ts, norm_cond as _nc, mk_opn as _mk
+    pnr = nr.params()
+    if len(pnr) != 7:
+        raise AnalysisError("newton_raphson no longer has 7 parameters")
+    rnr = _ANF(ix, nr, param_alias=dict(zip(pnr, ("net", "funct", "mode", "solver_vars", "tols", "pit_names", "iter_name")))).run()
+    wl_ = [(lid, L) for lid, L in rnr.loops.items() if isinstance(L["node"], ast.While) and not L["cond"] and len([x for x in rnr.loops.values() if isinstance(x["node"], ast.While)]) >= 1]
+    whiles = [(lid, L) for lid, L in rnr.loops.items() if isinstance(L["node"], ast.While)]
+    run.ob("newton_raphson|single-while", len(whiles) == 1, "newton_raphson has exactly one iteration loop", run.where(nr, nr.node))
+    if len(whiles) != 1:
         return
-    wl = loops[0]
-    conj = wl.test.values if isinstance(wl.test, ast.BoolOp) and isinstance(wl.test.op, ast.And) else [wl.test]
-    bound = [c for c in conj if isinstance(c, ast.Compare) and len(c.ops) == 1 and isinstance(c.ops[0], ast.Lt)
-             and isinstance(c.left, ast.Name) and isinstance(c.comparators[0], ast.Name)]
+    lid, L = whiles[0]
+    wl = L["node"]
+    test = L["iter"][1]
+    conj = list(test[2]) if test[0] == "bool" and test[1] == "and" else [test]
+    bound = [c for c in conj if c[0] == "cmp" and c[1] in ("<", ">") and any(x[0] == "carried" and x[3] == lid for x in c[2:4])]
     run.ob("newton_raphson|loop-bounded", len(bound) == 1,
-           "the while test conjoins `<counter> < <limit>`: %s" % U(wl.test), run.where(nr, wl))
+           "the while test conjoins `<counter> < <limit>`: %s" % _ts(test)[:120], run.where(nr, wl))
     if len(bound) != 1:
         return
-    counter, limit = bound[0].left.id, bound[0].comparators[0].id
+    b = bound[0]
+    ctr, lim = (b[2], b[3]) if b[2][0] == "carried" else (b[3], b[2])
+    strict_lt = (b[1] == "<") == (b[2][0] == "carried")
+    run.ob("newton_raphson|counter-below-limit", strict_lt, "the loop continues while the counter is below the limit", run.where(nr, wl))
     # limit comes from the option named by parameter iter_name
-    lim_asg = assignments(nr.node, limit)
-    ok_lim = False
-    if len(lim_asg) == 1:
-        _, val, pos = lim_asg[0]
-        if isinstance(val, ast.Call) and callee_name(val) == "get_net_options" and pos is not None:
-            ok_lim = U(val.args[1 + pos]) == "iter_name"
-        elif isinstance(val, ast.Call) and callee_name(val) == "get_net_option":
-            ok_lim = U(val.args[1]) == "iter_name"
-    run.ob("newton_raphson|limit-from-iter_name", ok_lim,
-           "the loop limit %s is the option named by parameter iter_name and is not reassigned" % limit,
-           run.where(nr, wl))
-    # counter: initialised to 0 before, incremented by 1 on every path through the body, never otherwise assigned
-    cfg = CFG(nr.node)
-    wn = cfg.node_of(wl)
-    incs = [n for n in cfg.nodes if n.kind == "stmt" and isinstance(n.ast, ast.AugAssign) and U(n.ast.target) == counter
-            and isinstance(n.ast.op, ast.Add) and isinstance(n.ast.value, ast.Constant) and n.ast.value.value == 1]
-    others = [n for n in own_walk(nr.node)
-              if (isinstance(n, ast.Assign) and any(U(t) == counter for t in n.targets))
-              or (isinstance(n, ast.AugAssign) and U(n.target) == counter and n not in [i.ast for i in incs])]
-    init_ok = len(others) == 1 and isinstance(others[0], ast.Assign) and isinstance(others[0].value, ast.Constant) \
-        and others[0].lineno < wl.lineno
-    run.ob("newton_raphson|counter-init", init_ok, "the counter is initialised once before the loop", run.where(nr, wl))
-    inc_ids = {n.id for n in incs}
-    body_entry = [b for b, lab in cfg.succ[wn.id] if lab == "T"]
-    # a path from body entry back to the loop head that avoids every increment?
-    seen, work, bad = set(), list(body_entry), False
-    while work:
-        a = work.pop()
-        if a in seen or a in inc_ids:
-            continue
-        seen.add(a)
-        if a == wn.id:
-            bad = True
-            break
-        work.extend(b for b, _ in cfg.succ[a])
-    run.ob("newton_raphson|counter-incremented-on-every-path", bool(incs) and not bad,
-           "`%s += 1` lies on every path through the loop body" % counter, run.where(nr, wl))
+    def from_iter_name(t):
+        if t[0] == "call" and t[1][0] == "f" and t[1][1].endswith(".get_net_option") and len(t[2]) == 2:
+            return t[2][1] == ("n", "iter_name")
+        if t[0] in ("proj", "idx"):
+            c_ = t[1]
+            k_ = t[2] if t[0] == "proj" else (t[2][0][1] if len(t[2]) == 1 and t[2][0][0] == "c" else None)
+            if c_[0] == "call" and c_[1][0] == "f" and c_[1][1].endswith(".get_net_options") and isinstance(k_, int) and 1 + k_ < len(c_[2]):
+                return c_[2][1 + k_] == ("n", "iter_name")
+        return False
+    run.ob("newton_raphson|limit-from-iter_name", from_iter_name(lim),
+           "the loop limit is the option named by parameter iter_name and is not reassigned", run.where(nr, wl), detail=_ts(lim)[:100])
+    # counter: initialised to a constant before, incremented by 1 on every path through the body
+    run.ob("newton_raphson|counter-init", ctr[2][0] == "c" and isinstance(ctr[2][1], int), "the counter is initialised once before the loop",
+           run.where(nr, wl), detail=_ts(ctr[2]))
+    nxt = L["env"].get(ctr[1])
+    run.ob("newton_raphson|counter-incremented-on-every-path", nxt is not None and _tk(nxt) == _tk(_mk("+", [ctr, ("c", 1)])),
+           "the counter is increased by exactly 1 on every path through the loop body (also on `continue` paths)", run.where(nr, wl),
+           detail=_ts(nxt)[:120] if nxt is not None else None)
     # mode-specific option names
     expect = {"hydraulics": "max_iter_hyd", "heat_transfer": "max_iter_therm", "bidirectional": "max_iter_bidirect"}
     ps = ix.module(PS)
@@ -757,43 +748,53 @@ def r5_4(run):
 
 # ---------------------------------------------------------------------------------------------
 def r5_6(run):
+    """NaN guards of the thermal solve, on whole-function terms: which early return is taken under which condition, and that
+    the in-place update happens only on the path where both guards passed (no names, no line numbers)"""
+    from ..arrnf import ANF as _ANF, norm_cond as _nc, key as _tk, show as _ts, walk as _walk
     ix = run.index
     st = ix.func(P + ".solve_temperature")
     run.analysed(st)
-    rets = returns(st.node)
-    cfg = CFG(st.node)
-    guarded = []
-    for n in cfg.nodes:
-        if n.kind == "if":
-            t = U(n.test)
-            if "check_infeed_number" in t or "isnan" in t:
-                guarded.append(n)
-    run.ob("solve_temperature|two-nan-guards", len(guarded) >= 2,
-           "solve_temperature guards on check_infeed_number and on NaN in the linear solution", run.where(st, st.node))
-    for g in guarded:
-        body_rets = [r for r in ast.walk(g.ast) if isinstance(r, ast.Return) and r in g.ast.body]
-        ok = False
-        if len(body_rets) == 1 and isinstance(body_rets[0].value, ast.Tuple) and len(body_rets[0].value.elts) == 3:
-            res = body_rets[0].value.elts[1]
-            s = U(res).replace(" ", "")
-            ok = s in ("np.array([np.nan])", "numpy.array([numpy.nan])", "np.array([nan])")
-        run.ob("solve_temperature|guard-returns-nan-residual|%s" % U(g.test)[:40], ok,
-               "the guard's early return yields a literal NaN residual array", run.where(st, g.ast))
-        # the guard must come before the state update
-    upd = [n for n in own_walk(st.node) if isinstance(n, ast.AugAssign)]
-    for g in guarded:
-        run.ob("solve_temperature|guard-before-update|%s" % U(g.test)[:40],
-               all(g.ast.lineno < u.lineno for u in upd) and len(upd) >= 2,
-               "the guard precedes the in-place update of TINIT/TOUTINIT", run.where(st, g.ast))
-    # the NaN test really is about the solution vector x
-    xs = [n for n in own_walk(st.node) if isinstance(n, ast.Assign) and isinstance(n.value, ast.Call)
-          and callee_name(n.value) == "spsolve"]
-    ok = False
-    if len(xs) == 1 and isinstance(xs[0].targets[0], ast.Name):
-        xn = xs[0].targets[0].id
-        ok = any(isinstance(g.test, ast.Call) and U(g.test).replace(" ", "") in
-                 ("np.any(np.isnan(%s))" % xn, "np.isnan(%s).any()" % xn) for g in guarded)
-    run.ob("solve_temperature|nan-test-on-solution", ok, "the NaN guard tests the spsolve result", run.where(st, st.node))
+    w = run.where(st, st.node)
+    r = _ANF(ix, st, param_alias={st.params()[0]: "net"}).run()
+
+    def nan_residual(v):
+        # (results, np.array([np.nan]), filtered)
+        return v[0] == "tuple" and len(v[1]) == 3 and v[1][1][0] == "call" and v[1][1][1] == ("x", "numpy.array") and v[1][1][2] \
+            and v[1][1][2][0] == ("list", (("c", "nan"),))
+
+    def is_infeed_guard(c_, pol):
+        c_, pol = _nc(c_, pol)
+        return (not pol) and c_[0] == "call" and c_[1][0] == "f" and c_[1][1].endswith(".check_infeed_number")
+
+    def is_nan_guard(c_, pol):
+        c_, pol = _nc(c_, pol)
+        # np.any(np.isnan(x)) / np.isnan(x).any() with x the result of the linear solve
+        if not (pol and c_[0] == "call" and c_[1] in (("x", "numpy.any"), ("x", "builtins.any")) and len(c_[2]) == 1):
+            return False
+        a = c_[2][0]
+        return a[0] == "call" and a[1] == ("x", "numpy.isnan") and len(a[2]) == 1 and a[2][0][0] == "call" \
+            and a[2][0][1][0] == "x" and a[2][0][1][1].endswith("spsolve")
+    rets = r.returns()
+    g_infeed = [e for e in rets if any(is_infeed_guard(c_, p_) for c_, p_ in e.cond)]
+    g_nan = [e for e in rets if any(is_nan_guard(c_, p_) for c_, p_ in e.cond)]
+    run.ob("solve_temperature|two-nan-guards", len(g_infeed) >= 1 and len(g_nan) >= 1,
+           "solve_temperature guards on check_infeed_number and on NaN in the linear solution", w)
+    for label, grp in (("check_infeed_number", g_infeed), ("isnan(solution)", g_nan)):
+        run.ob("solve_temperature|guard-returns-nan-residual|%s" % label, bool(grp) and all(nan_residual(e.value) for e in grp),
+               "the guard's early return yields a literal NaN residual array", w,
+               detail="; ".join(_ts(e.value[1][1])[:60] for e in grp if e.value[0] == "tuple" and len(e.value[1]) == 3))
+    upd = [e for e in r.stores() if e.aug and len(e.index) == 2 and e.index[1][0] == "k"]
+    for label, neg in (("check_infeed_number", is_infeed_guard), ("isnan(solution)", is_nan_guard)):
+        # on the path of the update the guard was evaluated and not taken
+        def passed(e):
+            for c_, p_ in e.cond:
+                c2, p2 = _nc(c_, p_)
+                if neg(c2, not p2):
+                    return True
+            return False
+        run.ob("solve_temperature|guard-before-update|%s" % label, len(upd) >= 2 and all(passed(e) for e in upd),
+               "the in-place update of TINIT/TOUTINIT happens only where the guard was passed", w)
+    run.ob("solve_temperature|nan-test-on-solution", len(g_nan) >= 1, "the NaN guard tests the spsolve result", w)
     # newton_raphson computes residual_norm = max(abs(residual)) -> NaN propagates
     nr = ix.func(P + ".newton_raphson")
     from ..arrnf import ANF, walk as twalk
